@@ -215,6 +215,15 @@ def discharge(fx, site):
                 ha = [sym.norm(sym.strip(x)) for x in hi[2]]
                 if any(x in ha for x in la):
                     return "bounds are min(_, d) and max(_, d) of a common d, hence ordered"
+            # however the bounds were computed: read the function as a decision list over the scalars it reads and evaluate every path on a
+            # grid that contains all their orderings and ties; no assignment reaches a clamp with lower > upper
+            import fnread
+            try:
+                n, atoms = fnread.never_panics(b)
+                if n is not None:
+                    return "no clamp with unordered bounds on %d assignments covering every ordering of %s" % (n, ", ".join(atoms))
+            except fnread.Undecided:
+                pass
             return None
         if site.what in ("BTreeMap::range", "BTreeSet::range"):
             # range(a..=b) / range(a..b) dominated by a comparison establishing a <= b on the same two terms
